@@ -195,5 +195,15 @@ example : vr (1 / 2) ([[2, 2], [2, 2]] : List (List ℝ)) = 2 :=
     simp only [List.mem_cons, List.not_mem_nil, or_false, or_self] at hrow
     subst hrow; simp)
 example : runObj false initObj [.request, .request, .notify, .request] = [1, 2, 3] := by decide
+example : cubo 2 ([5, 5, 5] : List ℝ) = 5 := tight_cubo 2 _ 5 (by simp) (by simp)
+example : klpq ([-1, -1] : List ℝ) = -1 := tight_klpq _ (-1) (by simp) (by simp)
+example : klpq2 ([[4], [4], [4]] : List (List ℝ)) = 4 :=
+  tight_klpq2 _ 4 (by simp) (by
+    intro row hrow
+    simp only [List.mem_cons, List.not_mem_nil, or_false, or_self] at hrow
+    subst hrow; simp)
+example : vr1 2 ([3, 3] : List ℝ) = 3 := tight_vr1 2 (by norm_num) _ 3 (by simp) (by simp)
+example : Real.log 2 - Real.log (1 / 2 : ℝ) = Real.log 4 :=
+  bayes_constant 2 (1 / 2) 4 (by norm_num) (by norm_num) (by norm_num)
 
 end TTProps.C14
